@@ -10,6 +10,7 @@ import itertools
 import numpy as np
 
 from mc.engine import Clause, Res
+from mc import layouts as _layouts
 
 from ibldsp import waveforms
 from neurowaveforms.model import generate_waveform
@@ -200,6 +201,19 @@ def small_check(case):
         if not np.array_equal(a1[0], arr[i], equal_nan=True):
             seen.setdefault("batch-dependence", "waveform %r: features alone %r differ from features in the batch %r"
                             % (w.T.tolist(), dict(zip(cols, a1[0])), dict(zip(cols, arr[i]))))
+    # the same integer-valued batch handed over in an integer / single-precision dtype: same features
+    for dt in (np.int16, np.int32, np.float32):
+        try:
+            _, a2 = _rows(features(batch.astype(dt), d))
+            ncalls += 1
+        except Exception as e:
+            seen.setdefault("dtype:exc:%s" % type(e).__name__, "batch as %s raised %s: %s" % (np.dtype(dt).name, type(e).__name__, e))
+            continue
+        bad = np.flatnonzero(~np.all(np.isclose(a2, arr, rtol=1e-6, atol=0, equal_nan=True), axis=1))
+        if bad.size:
+            b = bad[0]
+            seen.setdefault("dtype-dependence", "waveform %r handed over as %s: features %r differ from the float64 features %r"
+                            % (batch[b].T.tolist(), np.dtype(dt).name, dict(zip(cols, a2[b])), dict(zip(cols, arr[b]))))
     # scaling by c > 0: values scale, indices stay (whole batch at once)
     for cscale in (0.5, 3.0):
         _, a2 = _rows(features(batch * cscale, d))
@@ -306,5 +320,6 @@ CHECK = {
     "clauses": [
         Clause("small", "all small waveforms, batch + singletons + scaling + channel permutation", cases=small_cases, check=small_check),
         Clause("realistic", "model spikes of either polarity, lengths 10-200, 1-40 channels, NaN channels, extrema on the last samples", cases=real_cases, check=real_check),
+        _layouts.make_clause(__import__("checks._layout_specs", fromlist=["x"]).c14()),
     ],
 }
